@@ -123,6 +123,30 @@ func BuildLockModel(r *Run, p *packages.Package, typeName string, satellites ...
 			}
 		}
 	}
+	// a struct of the same package held by value in an owned field is part of the owner's memory: its fields are owned too
+	for changed := true; changed; {
+		changed = false
+		for f := range owned {
+			n, ok := f.Type().(*types.Named)
+			if !ok || n.Obj().Pkg() != p.Types {
+				continue
+			}
+			nst, ok := n.Underlying().(*types.Struct)
+			if !ok {
+				continue
+			}
+			for i := 0; i < nst.NumFields(); i++ {
+				nf := nst.Field(i)
+				if is, _ := isMutexType(nf.Type()); is || isAtomicType(nf.Type()) {
+					continue
+				}
+				if _, have := owned[nf]; !have {
+					owned[nf] = n
+					changed = true
+				}
+			}
+		}
+	}
 	info := p.TypesInfo
 	// methods
 	for _, f := range p.Syntax {
